@@ -53,3 +53,16 @@ TEXTS["C18"] = {
             "(shift/keys/entry/sweep accessors), Go's monotonic clock. No axioms.",
     "technique": "Coq proof over an executable model with explicit clock + exact virtual-time differential check + property monitors + bracketed real-time validation",
 }
+
+TEXTS["C16"] = {
+    "text": "Machine-checked proof (Coq) over the operational model transcribed from storageunit.go (Put: cache, persister, undo on error; Get: cache else persister + refill; "
+            "Has; Remove; ClearCache; GetBulkFromEpoch; epoch aliases), for ANY cacher satisfying cacher_laws, all histories and all per-call failure oracles: "
+            "outputs are those the map of acknowledged writes allows, the persister equals that map, whatever the cache may return is what the persister holds, "
+            "a rejected Put returns the error / leaves the persister unchanged / the cache holds nothing for the key / the previous acknowledged value is still served, "
+            "Remove clears both layers when accepted, bulk returns a subsequence of the found pairs (all of them when no read fails); factory guard as a decision rule. "
+            "Tied to the code by differential runs on policy-independent observables over every factory cacher and memorydb/LevelDB persisters behind a failing stub, "
+            "and by monitors reading the injected cacher and persister directly.",
+    "note": "Trusted: Coq kernel; hand-written model tied by differential runs; extraction; Go harness/monitors/stub. No axioms. Guards: a Get/Has/bulk read that is "
+            "made to fail returns / swallows the error (unguarded readings refuted by witnesses); slice aliasing is outside the model.",
+    "technique": "Coq proof generic in an abstract lawful cacher (coherence invariant by induction over op lists) + differential correspondence on policy-independent observables + Go monitors + factory-guard grid",
+}
